@@ -16,6 +16,7 @@ day, sort_index), so dtypes are the loader's by construction.
 """
 import csv
 import io
+import os
 import math
 from decimal import Decimal
 from fractions import Fraction
@@ -59,7 +60,7 @@ def csv_text(mw) -> dict:
                 [
                     name, str(t), str(t + pd.Timedelta(seconds=38, milliseconds=752)), r.get("state", "open"), ins["type"],
                     ins["strike"], str(exp - t), str(exp), "1.42317", "-1.05567", "0.60142", r.get("gamma", "0.00289"),
-                    r.get("delta", "0.67817"), r["underlying"], "", "0.0001", "0.9", r["mark"], "31.28", "", "0", "27.93",
+                    r.get("delta", "0.67817"), r["underlying"], r.get("settlement", ""), "0.0001", "0.9", r["mark"], "31.28", "", "0", "27.93",
                     bids[0][0] if bids else "0.0", bids[0][1] if bids else "0.0", "33.75",
                     asks[0][0] if asks else "0.0", asks[0][1] if asks else "0.0", _book_text(asks), _book_text(bids),
                 ]
@@ -100,6 +101,31 @@ def frame_of(mw) -> pd.DataFrame:
     return df
 
 
+def _load_through_files(market, mw):
+    """The snapshots written as the per-day files of the data download and read back by the REAL loader
+    (DeribitOptionMarket.load_data -> load_deribit_option_data), its feather cache pointed at a private empty directory."""
+    import shutil
+    import tempfile
+
+    import demeter.data.data_cache as DC
+    from ..sim import private_cwd
+
+    root = tempfile.mkdtemp(prefix="deribit-files-", dir=private_cwd())
+    saved = (DC.CACHE_PATH, DC.CACHE_CONFIG_PATH)
+    try:
+        DC.CACHE_PATH = os.path.join(root, "cache")
+        DC.CACHE_CONFIG_PATH = os.path.join(DC.CACHE_PATH, "config.pkl")
+        texts = csv_text(mw)
+        for day, text in texts.items():
+            with open(os.path.join(root, f"Deribit-option-book-ETH-{day.strftime('%Y%m%d')}.csv"), "w") as f:  # (the loader's file name says ETH for either coin)
+                f.write(text)
+        market.data_path = root
+        market.load_data(min(texts).date(), max(texts).date())
+    finally:
+        DC.CACHE_PATH, DC.CACHE_CONFIG_PATH = saved
+        shutil.rmtree(root, ignore_errors=True)
+
+
 @market_builder("deribit")
 def build_deribit(sim, mw):
     tok = mw["token"].upper()
@@ -117,7 +143,10 @@ def build_deribit(sim, mw):
         # reasons outside C15/C16; the generators never produce it
         raise HarnessError("deribit world must start on the hour with the floor hour present")
     market = DeribitOptionMarket(MarketInfo(mw["name"], MarketTypeEnum.deribit_option), token)
-    market.data = frame_of(mw)
+    if mw.get("via_files") and not mw.get("filtered_from_half_hours"):
+        _load_through_files(market, mw)
+    else:
+        market.data = frame_of(mw)
     sim.mdata[mw["name"]] = {"mw": mw, "token": tok, "hours": {h["t"]: h for h in mw["hours"]}}
     return market
 
